@@ -621,6 +621,10 @@ def _buffered(ctx):
                     x[2][0] == "slice" and any(
                         y == BUFT for y in walk_term(x[1])):
                 sl.append(x[2])
+    if not sl:
+        raise AnalysisError(
+            f"{bs.qual}: no [start:end] selection of the buffer found in "
+            "what is returned; rule C13d-slice-bounds needs re-reading")
     want_sl = ("slice", ("param", "start"), ("param", "end"),
                ("const", None))
     ctx.check(bool(sl) and all(x == want_sl for x in sl),
@@ -747,19 +751,33 @@ def _dict_get(t, k):
 def _to_csv_kwargs(prog, t):
     """Effective keyword arguments of a to_csv call term of the CSV writer:
     explicit keywords plus the entries of a ``**self.stdargs`` display."""
+    def entries(v):
+        """[(key, value)] of a dictionary term, later entries overriding
+        earlier ones: a display, self.stdargs, or either of them updated
+        in place with another such dictionary"""
+        if v == ("attr", SELF, "stdargs"):
+            v = _attr_value(prog, TD + "CSVFileWriter", "stdargs")
+            if v is None:
+                return None
+        if v[0] == "dict":
+            if any(kk[0] != "const" for kk in v[1]):
+                return None
+            return [(kk[1], vv) for kk, vv in zip(v[1], v[2])]
+        if v[0] == "mut" and v[2] == "update" and len(v[3]) == 1:
+            a, b = entries(v[1]), entries(v[3][0])
+            extra = [(k_, v_) for k_, v_ in (v[4] if len(v) > 4 else ())]
+            if a is None or b is None:
+                return None
+            return a + b + extra
+        return None
     kw = {}
     for k, v in (t[4] if t[0] == "mcall" else t[3]):
         if k == "**":
-            if v == ("attr", SELF, "stdargs"):
-                d = _attr_value(prog, TD + "CSVFileWriter", "stdargs")
-                if d is None or d[0] != "dict":
-                    return None
-                for kk, vv in zip(d[1], d[2]):
-                    if kk[0] != "const":
-                        return None
-                    kw.setdefault(kk[1], vv)
-            else:
+            es = entries(v)
+            if es is None:
                 return None
+            for kk, vv in es:
+                kw[kk] = vv
         else:
             kw[k] = v
     return kw
@@ -955,7 +973,9 @@ def _lifecycle(ctx):
                 "path_or_buf") != FNAME:
             why.append("not written to the writer's file")
         if kw is None:
-            why.append("keyword arguments not resolvable")
+            raise AnalysisError(
+                f"{ca.qual}: the keyword arguments of to_csv are passed in "
+                f"a form the rule does not read ({show(t, 120)})")
         else:
             if kw.get("mode") != ("const", "a"):
                 why.append("mode is not 'a'")
@@ -1044,7 +1064,18 @@ def _lifecycle(ctx):
             kw = dict(tab[3])
             if kw.get("preserve_index") != ("const", False):
                 why.append("the row index is written")
-            if kw.get("schema") != SCHEMA:
+            sch = kw.get("schema")
+            own_schema = sch == SCHEMA
+            if sch is not None and sch[0] == "mcall" and sch[1] == SELF \
+                    and sch[2] == "get_schema":
+                from ..tutil import bound_margs as _bm
+                sb = _bm(prog, sch)
+                sb = sb if sb is not None else dict(sch[4])
+                own_schema = not sch[3] or sb is not None
+                own_schema = own_schema and sb.get(
+                    "as_dict", ("const", False)) == ("const", False) and \
+                    set(sb) <= {"as_dict"}
+            if not own_schema:
                 why.append("not converted with the writer's schema")
             if "columns" in kw:
                 why.append("a column selection is applied")
